@@ -20,7 +20,7 @@ func init() {
 
 func TestC02_ChainsEnum(t *testing.T) {
 	c := harness.New(t, "C02", "chains-enum",
-		"every @if chain shape with 0..3 @elseif, with/without @else, over all truthiness vectors (true / false / failing condition per branch), each body a unique marker, at top level, inside an @each pass and inside another branch, with text before/between/after; expected: marker of the first truthy branch, @else marker or nothing; a failing condition at or before the chosen branch is an error, behind it it must not surface. Empty bodies are their own shape. Non-trivial: chosen branch index >= 1, or a failing condition behind the chosen branch, or nesting. Distinct by construction.")
+		"every @if chain shape with 0..3 @elseif, with/without @else, over all truthiness vectors (true / false / failing condition per branch), each body a unique marker, at top level, inside an @each pass and inside another branch, with text before/between/after, and the same chain written as nested ternaries (printed, and as the condition of an @if); expected: marker of the first truthy branch, @else marker or nothing; a failing condition at or before the chosen branch is an error, behind it it must not surface. Empty bodies are their own shape. Non-trivial: chosen branch index >= 1, or a failing condition behind the chosen branch, or nesting. Distinct by construction.")
 	defer c.Finish()
 	in := interp()
 	idx := 0
@@ -32,7 +32,7 @@ func TestC02_ChainsEnum(t *testing.T) {
 		}
 		for code := 0; code < total; code++ {
 			for _, hasElse := range []bool{false, true} {
-				for _, ctx := range []string{"top", "each", "branch", "empty-bodies"} {
+				for _, ctx := range []string{"top", "each", "branch", "empty-bodies", "ternary", "ternary-in-if"} {
 					idx++
 					if !harness.Mine(idx) {
 						continue
@@ -72,6 +72,21 @@ func TestC02_ChainsEnum(t *testing.T) {
 						}
 					}
 					var prog []*tw.Stmt
+					// the same chain written as nested ternaries: cond0 ? "[b0]" : (cond1 ? "[b1]" : ... "[else]")
+					tern := tw.Str("")
+					if hasElse {
+						tern = tw.Str("[else]")
+					}
+					for b := nb - 1; b >= 0; b-- {
+						tern = tw.Tern(cloneExpr(st.Branches[b].Cond), tw.Str(fmt.Sprintf("[b%d]", b)), tern)
+					}
+					switch ctx {
+					case "ternary":
+						prog = []*tw.Stmt{tw.Text("pre "), tw.Print(tern), tw.Text(" post")}
+					case "ternary-in-if":
+						// ... and as the condition of an @if (every marker is a truthy string, "" is not)
+						prog = []*tw.Stmt{tw.Text("pre "), {Kind: tw.SIf, Branches: []tw.Branch{{Cond: tern, Body: []*tw.Stmt{tw.Text("[some]")}}}, HasElse: true, Else: []*tw.Stmt{tw.Text("[none]")}}, tw.Text(" post")}
+					}
 					switch ctx {
 					case "top", "empty-bodies":
 						prog = []*tw.Stmt{tw.Text("pre "), st, tw.Text(" post")}
@@ -95,7 +110,7 @@ func TestC02_ChainsEnum(t *testing.T) {
 			}
 		}
 	}
-	c.ExhaustivePart("all chain shapes with 0..3 @elseif x {false,true,failing}^branches x else/no else x 4 contexts")
+	c.ExhaustivePart("all chain shapes with 0..3 @elseif x {false,true,failing}^branches x else/no else x 6 contexts")
 }
 
 func TestC02_TruthinessTable(t *testing.T) {
